@@ -477,6 +477,10 @@ class Doist(tyming.Tymist):
         if deeds is None:
             deeds = self.deeds
 
+        if (None, None, None) in deeds:  # marker so exit is mid run through of recur
+            # already run deeds are right of marker so rotate to restore enter order
+            deeds.rotate(-deeds.index((None, None, None)))
+
         while(deeds):  # .close each remaining dog in deeds in reverse order
             dog, retime, doer = deeds.pop()  # pop it off in reverse (right side)
             if not dog:  # marker deed
@@ -1355,6 +1359,10 @@ class DoDoer(Doer):
         """
         if deeds is None:
             deeds = self.deeds
+
+        if (None, None, None) in deeds:  # marker so exit is mid run through of recur
+            # already run deeds are right of marker so rotate to restore enter order
+            deeds.rotate(-deeds.index((None, None, None)))
 
         while(deeds):  # .close each remaining dog in deeds in reverse order
             dog, retime, doer = deeds.pop()  # pop it off in reverse (right side)
